@@ -580,6 +580,9 @@ def is_in_polygon(polygon, points, ncaps=0):
         except AttributeError:
             p[key] = polygon[pmap[key]]
     usencaps = p['ncaps']
+    if usencaps > 0:
+        p['x'] = np.asarray(p['x']).reshape(-1, 3)
+        p['cm'] = np.asarray(p['cm']).reshape(-1)
     if ncaps > 0:
         usencaps = min(ncaps, p['ncaps'])
     in_polygon = np.ones((npoints,), dtype=bool)
